@@ -180,12 +180,14 @@ Definition d_C16 (k : Z) (arg : sx) : sx :=
   match k, arg with
   | 0, L [bytes; A n; A m] =>
       match as_ZL bytes with
-      | Some b => match decode_bed b (Z.to_nat n) (Z.to_nat m) with
+      | Some b => match decode_bed_any b (Z.to_nat n) (Z.to_nat m) with
                   | Some codes => L [A 1; L (map (fun row => L (map (fun c => let p := call c in L [A (fst p); A (snd p)]) row)) codes)]
                   | None => L [A 0] end
       | None => err_sx 1 end
   | 1, L [rows; pads] =>
       match as_ZLL rows, as_ZLL pads with Some r, Some p => of_Zs (encode_bed r p) | _, _ => err_sx 1 end
+  | 2, L [rows; A n; pads] =>
+      match as_ZLL rows, as_ZLL pads with Some r, Some p => of_Zs (encode_bed_sample_major r (Z.to_nat n) p) | _, _ => err_sx 1 end
   | _, _ => err_sx 2
   end.
 
@@ -245,7 +247,7 @@ Definition d_C04 (k : Z) (arg : sx) : sx :=
 (* ---- C14 ---- *)
 Definition un_outcome (s : sx) : option Workers.outcome :=
   match s with
-  | L [A 0] => Some Workers.Done | L [A 1; A e] => Some (Workers.Raised e) | L [A 2] => Some Workers.Broken | _ => None end.
+  | L [A 0] => Some Workers.Done | L [A 1; A e] => Some (Workers.Raised e) | L [A 2] => Some Workers.Broken | L [A 3] => Some Workers.Exited | _ => None end.
 Definition d_C14 (k : Z) (arg : sx) : sx :=
   match k with
   | 0 => match un_list un_outcome arg with
